@@ -59,11 +59,11 @@ def encodeInt (i : Int) : List Char :=
 
 mutual
   def encode : JV → List Char
-    | .null => "null".toList
-    | .bool true => "true".toList
-    | .bool false => "false".toList
+    | .null => ['n', 'u', 'l', 'l']
+    | .bool true => ['t', 'r', 'u', 'e']
+    | .bool false => ['f', 'a', 'l', 's', 'e']
     | .num i => encodeInt i
-    | .float => "0.5".toList
+    | .float => ['0', '.', '5']
     | .str s => encodeString s
     | .arr l => '[' :: encodeElems l ++ [']']
     | .obj kvs => '{' :: encodeMembers kvs ++ ['}']
@@ -196,24 +196,28 @@ def skipFracExp (cs : List Char) : Option (List Char) :=
 
 /-- JSON number grammar: `-`? ( `0` | [1-9][0-9]* ) frac? exp?; `none` value = a well-formed
     number with a fraction or exponent (outside the fragment: `JV.float`) -/
-def parseNumber (cs : List Char) : PR (Option Int) :=
-  let (neg, cs) := match cs with
-    | '-' :: r => (true, r)
-    | _ => (false, cs)
+def signed (neg : Bool) (n : Nat) : Int := if neg then -(Int.ofNat n) else Int.ofNat n
+
+def parseNumberBody (neg : Bool) (cs : List Char) : PR (Option Int) :=
   match cs with
   | [] => .err
   | d :: r =>
     if !isDigit d then .err
     else
-      let (n, rest) := if d == '0' then (0, r) else takeDigits (d :: r) 0
-      match rest with
+      let nr := if d == '0' then (0, r) else takeDigits (d :: r) 0
+      match nr.2 with
       | c :: _ =>
         if c == '.' || c == 'e' || c == 'E' then
-          match skipFracExp rest with
+          match skipFracExp nr.2 with
           | some rest' => .ok none rest'
           | none => .err
-        else .ok (some (if neg then -(Int.ofNat n) else Int.ofNat n)) rest
-      | [] => .ok (some (if neg then -(Int.ofNat n) else Int.ofNat n)) rest
+        else .ok (some (signed neg nr.1)) nr.2
+      | [] => .ok (some (signed neg nr.1)) nr.2
+
+def parseNumber (cs : List Char) : PR (Option Int) :=
+  match cs with
+  | [] => .err
+  | c :: r => if c == '-' then parseNumberBody true r else parseNumberBody false (c :: r)
 
 mutual
   def parseValue : Nat → List Char → PR JV
@@ -235,12 +239,12 @@ mutual
           | .unmodelled => .unmodelled
         else if c == '[' then
           match skipWS r with
-          | ']' :: r' => .ok (.arr []) r'
-          | _ => parseElems fuel r []
+          | c2 :: r' => if c2 == ']' then .ok (.arr []) r' else parseElems fuel r []
+          | [] => parseElems fuel r []
         else if c == '{' then
           match skipWS r with
-          | '}' :: r' => .ok (.obj []) r'
-          | _ => parseMembers fuel r []
+          | c2 :: r' => if c2 == '}' then .ok (.obj []) r' else parseMembers fuel r []
+          | [] => parseMembers fuel r []
         else if c == 'n' then
           match r with
           | 'u' :: 'l' :: 'l' :: r' => .ok .null r'
